@@ -344,10 +344,7 @@ pub fn run(tier: Tier) {
     if let Some((s, k)) = long512.first() {
         bit_flips::<V512>(&mut ctx, seed_bytes(*s), &format!("LE64({}) [at least {} rejected candidates]", s, k), if tier.thorough() { (0..256).collect() } else { (0..256).step_by(8).chain(248..256).collect() });
     }
-    crate::e5::run_part(&mut ctx, "keygen");
-    if tier.thorough() {
-        crate::e5::run_part(&mut ctx, "keygen3");
-    }
+    crate::e5::run_part(&mut ctx, if tier.thorough() { "keygen,keygen2,keygen_stream,keygen3" } else { "keygen,keygen2,keygen_stream" });
     ctx.sample(json!({"target":"falcon512::keygen(LE64(0)||0^24)","history":"[B: falcon1024::keygen(s''), target] in a fresh process","expected":"same bytes as a fresh process running only the target"}));
     ctx.assume("seeds outside the enumerated ones are not covered; StdRng::from_seed takes all 32 bytes as the ChaCha key and the float pipeline is deterministic");
     ctx.assume("call-level interleavings only (one call at a time); intra-call preemption is not explored");
@@ -355,7 +352,7 @@ pub fn run(tier: Tier) {
 }
 
 pub fn replay(case: &Value) -> Result<Option<String>, String> {
-    if case.get("kind").and_then(|k| k.as_str()) == Some("e5") {
+    if case.get("kind").and_then(|k| k.as_str()) .map(|k| k == "e5" || k == "e5-setup").unwrap_or(false) {
         return crate::e5::replay(case);
     }
     let kind = case.get("kind").and_then(|k| k.as_str()).ok_or("no kind")?;
